@@ -36,6 +36,63 @@ theorem push_back_length_error (cfg : Cfg) (c : Nat) (s : Src α) (w : World α)
   rw [e1, if_pos (by simp [hmax])]
   rfl
 
+/-- insert (pos, x) / emplace (pos, args) at max_size (): length_error, nothing changed — for every position -/
+theorem insert_length_error (cfg : Cfg) (c pos : Nat) (s : Src α) (rv : Bool) (w : World α)
+    (hfull : (w.hdr c).size = (w.hdr c).cap) (hmax : (w.hdr c).size = cfg.maxSize) :
+    emplaceAt cfg c pos s rv w = .thrown .length w := by
+  unfold emplaceAt
+  rw [bind_run, getV_run]
+  simp only []
+  have e0 : guard_emplaceAt_0 (genv cfg (w.hdr c)) = decide ((w.hdr c).size < (w.hdr c).cap) := rfl
+  rw [e0, if_neg (by simp [hfull])]
+  unfold emplaceIntoReallocation
+  rw [bind_run, getV_run]
+  simp only []
+  have e1 : guard_emplaceIntoReallocation_0 { genv cfg (w.hdr c) with offset := pos } = decide (pos = (w.hdr c).size) := rfl
+  have e2 : guard_emplaceIntoReallocation_1 (genv cfg (w.hdr c)) = decide (cfg.maxSize = (w.hdr c).size) := rfl
+  rw [e1, e2]
+  by_cases hp : pos = (w.hdr c).size
+  · rw [if_pos (decide_eq_true hp)]
+    unfold emplaceIntoReallocationEnd
+    rw [bind_run, getV_run]
+    simp only []
+    have e3 : guard_emplaceIntoReallocationEnd_0 (genv cfg (w.hdr c)) = decide (cfg.maxSize = (w.hdr c).size) := rfl
+    rw [e3, if_pos (by simp [hmax])]
+    rfl
+  · rw [if_neg (by simpa using hp), if_pos (by simp [hmax])]
+    rfl
+
+/-- insert (pos, n, x), n ≥ 1, beyond max_size (): length_error, nothing changed — mid-sequence positions -/
+theorem insert_n_length_error (cfg : Cfg) (c pos n : Nat) (s : Src α) (w : World α)
+    (hpos : pos ≠ (w.hdr c).size) (hbig : cfg.maxSize - (w.hdr c).size < n) (hcap : (w.hdr c).cap ≤ cfg.maxSize) :
+    insertCopies cfg c pos n s w = .thrown .length w := by
+  unfold insertCopies
+  rw [bind_run, getV_run]
+  simp only []
+  have e0 : guard_insertCopies_0 { genv cfg (w.hdr c) with pos := pos, count := n, tailSize := (w.hdr c).size - pos } = decide (0 = n) := rfl
+  have e1 : guard_insertCopies_1 { genv cfg (w.hdr c) with pos := pos, count := n, tailSize := (w.hdr c).size - pos } = decide (pos = (w.hdr c).size) := rfl
+  have e3 : guard_insertCopies_3 { genv cfg (w.hdr c) with pos := pos, count := n, tailSize := (w.hdr c).size - pos } = decide ((w.hdr c).cap - (w.hdr c).size < n) := rfl
+  have e4 : guard_insertCopies_4 { genv cfg (w.hdr c) with pos := pos, count := n, tailSize := (w.hdr c).size - pos } = decide (cfg.maxSize - (w.hdr c).size < n) := rfl
+  rw [e0, e1, e3, e4, if_neg (by simp; omega), if_neg (by simpa using hpos), if_pos (by simp; omega), if_pos (decide_eq_true hbig)]
+  rfl
+
+/-- insert (pos, first, last) (multi-pass) beyond max_size (): length_error, nothing changed — mid-sequence positions -/
+theorem insert_range_length_error (cfg : Cfg) (c pos : Nat) (srcs : List (Src α)) (w : World α)
+    (hpos : pos ≠ (w.hdr c).size) (hbig : cfg.maxSize - (w.hdr c).size < srcs.length) (hcap : (w.hdr c).cap ≤ cfg.maxSize) :
+    insertRangeFwd cfg c pos srcs w = .thrown .length w := by
+  unfold insertRangeFwd
+  rw [bind_run, getV_run]
+  simp only []
+  have e0 : guard_insertRange1_0 { genv cfg (w.hdr c) with pos := pos, numInsert := srcs.length } = !decide (pos = (w.hdr c).size) := rfl
+  rw [e0, if_pos (by simpa using hpos)]
+  unfold insertRangeHelper
+  rw [bind_run, getV_run]
+  simp only []
+  have h0 : guard_insertRangeHelper_0 { genv cfg (w.hdr c) with pos := pos, numInsert := srcs.length, tailSize := (w.hdr c).size - pos } = decide ((w.hdr c).cap - (w.hdr c).size < srcs.length) := rfl
+  have h1 : guard_insertRangeHelper_1 { genv cfg (w.hdr c) with pos := pos, numInsert := srcs.length, tailSize := (w.hdr c).size - pos } = decide (cfg.maxSize - (w.hdr c).size < srcs.length) := rfl
+  rw [h0, h1, if_pos (by simp; omega), if_pos (decide_eq_true hbig)]
+  rfl
+
 /-- insert(end, n, x) / resize growth / append(range): required size beyond max_size -/
 theorem append_copies_length_error (cfg : Cfg) (c count : Nat) (s : Src α) (w : World α)
     (hbig : cfg.maxSize - (w.hdr c).size < count) (hcap : (w.hdr c).cap ≤ cfg.maxSize) :
